@@ -141,7 +141,7 @@ def seq_ob(prop, lid, ops, k0=None, aflags='AF_ALWAYS_EQUAL', extra=(), cfg=None
     if smax is not None: d.append(f'-DSMAX={smax}')
     c = dict(slack='min', budget_s=900)
     if cfg: c.update(cfg)
-    return dict(prop=prop, name=name or f"seq/{lid}/k{k0}/{'+'.join(o[3:].lower() for o in ops)}", harness='h_seq.cpp', defines=d,
+    return dict(prop=prop, name=name or f"seq/{lid}/k{k0}/{'+'.join(o[3:].lower() for o in ops)}" + (f"/s{smax}" if smax is not None else ''), harness='h_seq.cpp', defines=d,
                 entry='h_entry', cfg=c, list=lid)
 
 
@@ -163,7 +163,7 @@ def pool_seq(prop, lists, tier, ops_filter=None, aflags='AF_ALWAYS_EQUAL'):
             for a in SINGLE_OPS:
                 for b in SINGLE_OPS:
                     if ops_filter and a not in ops_filter and b not in ops_filter: continue
-                    obs.append(seq_ob(prop, lid, [a, 'OP_PROBE', b, 'OP_PROBE'], k0=2, aflags=aflags))
+                    obs.append(seq_ob(prop, lid, [a, 'OP_PROBE', b, 'OP_PROBE'], k0=(1 if lid in TWO_SPAN else 2), aflags=aflags, smax=(1 if lid in TWO_SPAN else None)))
     return dedup(obs)
 
 
